@@ -18,7 +18,9 @@ for id in "$@"; do
   RACE=()
   ( cd "$T/root/harness" && go build -tags verif -o "$T/lwmon" ./cmd/lwmon ) || { echo "build failed"; exit 2; }
   case "$id" in C10|C16) ( cd "$T/root/harness" && go build -race -tags verif -o "$T/lwmon-race" ./cmd/lwmon ) && RACE=(-racebin "$T/lwmon-race");; esac
-  out=$("$T/lwmon" run -prop "$id" -tier "${TIER:-quick}" -root "$T/root" -repo "$T/wt" "${RACE[@]}" 2>&1); rc=$?
+  A386=()
+  ( cd "$T/root/harness" && GOARCH=386 CGO_ENABLED=0 go build -tags verif -o "$T/lwmon-386" ./cmd/lwmon ) 2>/dev/null && A386=(-bin386 "$T/lwmon-386")
+  out=$("$T/lwmon" run -prop "$id" -tier "${TIER:-quick}" -root "$T/root" -repo "$T/wt" "${RACE[@]}" "${A386[@]}" 2>&1); rc=$?
   echo "== $id exit=$rc  $(echo "$out" | grep -c '^VIOLATION') violation line(s)"
   echo "$out" | grep -A2 '^VIOLATION' | cut -c1-600 | head -${LINES_SHOWN:-9}
 done
